@@ -26,10 +26,27 @@ type Clock struct {
 // TheClock is the process-wide virtual clock (the shims read it through package variables).
 var TheClock = &Clock{Sec: Now0, Ms: 1000}
 
+// Levels is the queue of skip-list levels the environment hands out (level 1 when empty).
+var Levels []int
+
 // InstallClock points the shims at TheClock and resets it.
 func InstallClock() {
 	TheClock.Sec, TheClock.Ms, TheClock.HoldMs = Now0, 1000, false
 	vrt.NowSec = func() int64 { return TheClock.Sec }
+	Levels = nil
+	vrt.RandInt = func() int {
+		// skip-list level of the next node: randomLevel() draws until an answer >= 0.25*0xFFFF;
+		// level L = (L-1) small answers followed by a large one.  Default level 1.
+		if len(Levels) == 0 {
+			return 0xFFFF
+		}
+		if Levels[0] > 1 {
+			Levels[0]--
+			return 0
+		}
+		Levels = Levels[1:]
+		return 0xFFFF
+	}
 	snowflake.VerifNowMs = func() int64 {
 		if TheClock.HoldMs {
 			TheClock.HoldMs = false
@@ -75,7 +92,8 @@ type OpResult struct {
 	After   []Res    `json:"after,omitempty"`
 	Panic   string   `json:"panic,omitempty"`
 	Faulted bool     `json:"faulted,omitempty"`
-	Notes   []string `json:"notes,omitempty"` // oracle complaints found while applying the op
+	Notes   []string `json:"notes,omitempty"` // oracle complaints about the op's own outcome
+	Bad     []Mismatch `json:"-"`             // calls whose result the model does not allow
 }
 
 // OpenInst opens a fresh database.
@@ -147,7 +165,7 @@ func (in *Inst) runBody(tx *nutsdb.Tx, op Op, work *State, writable bool, res *O
 			exp = work.Eval(c, r)
 		}
 		if msg := exp.Check(r); msg != "" {
-			res.Notes = append(res.Notes, fmt.Sprintf("call %d %s: %s", i+1, c, msg))
+			res.Bad = append(res.Bad, Mismatch{Idx: i + 1, Call: c, Got: r, Want: exp.String(), Symptom: exp.Symptom(r), Msg: msg})
 		}
 		if r.Panic != "" {
 			res.Panic = r.Panic
@@ -314,9 +332,9 @@ func (in *Inst) Observe(queries []Call) (out []Res, err error) {
 	return
 }
 
-// CheckObs compares an observation with the model; it returns the complaints.
-func CheckObs(model *State, queries []Call, obs []Res) []string {
-	var notes []string
+// CheckObs compares an observation with the model; it returns the mismatches.
+func CheckObs(model *State, queries []Call, obs []Res) []Mismatch {
+	var bad []Mismatch
 	m := model.Clone()
 	for i, c := range queries {
 		if i >= len(obs) {
@@ -324,24 +342,58 @@ func CheckObs(model *State, queries []Call, obs []Res) []string {
 		}
 		exp := m.Eval(c, obs[i])
 		if msg := exp.Check(obs[i]); msg != "" {
-			notes = append(notes, fmt.Sprintf("%s: %s", c, msg))
+			bad = append(bad, Mismatch{Call: c, Got: obs[i], Want: exp.String(), Symptom: exp.Symptom(obs[i]), Msg: msg})
 		}
 	}
-	return notes
+	return bad
 }
 
-// DiffObs compares two observations query by query.
-func DiffObs(queries []Call, a, b []Res) []string {
-	var notes []string
+// normRes maps results the statements treat as the same answer to one form: an empty result
+// may be reported as an error or as an empty value (DESIGN.md 4.1).
+func normRes(c Call, r Res) string {
+	if r.Panic != "" {
+		return r.String()
+	}
+	empty := ""
+	switch c.F {
+	case "GetAll", "RangeScan", "PrefixScan", "PrefixSearchScan", "LRange", "SMembers", "ZMembers", "ZRangeByScore", "ZRangeByRank",
+		"SDiffByOneBucket", "SDiffByTwoBuckets", "SUnionByOneBucket", "SUnionByTwoBuckets":
+		empty = "[]"
+	case "LSize", "SCard", "ZCard", "ZCount", "ZRank", "ZRevRank":
+		empty = "0"
+	case "SIsMember", "SAreMembers", "SHasKey":
+		empty = "false"
+	case "LPeek", "RPeek", "ZPeekMin", "ZPeekMax":
+		empty = "nil"
+	default:
+		return r.String()
+	}
+	if r.Err || r.Val == empty {
+		return "empty"
+	}
+	return r.String()
+}
+
+// DiffObs compares two observations query by query; the first is the reference.
+func DiffObs(queries []Call, a, b []Res) []Mismatch {
+	var bad []Mismatch
 	for i, c := range queries {
 		if i >= len(a) || i >= len(b) {
 			break
 		}
-		if a[i].String() != b[i].String() {
-			notes = append(notes, fmt.Sprintf("%s: %s before, %s after", c, a[i], b[i]))
+		if normRes(c, a[i]) != normRes(c, b[i]) {
+			exp := Expect{Val: a[i].Val}
+			if a[i].Err {
+				exp = Expect{Err: 1}
+			}
+			sym := exp.Symptom(b[i])
+			if sym == "" {
+				sym = "differs"
+			}
+			bad = append(bad, Mismatch{Call: c, Got: b[i], Want: a[i].String(), Symptom: sym, Msg: fmt.Sprintf("%s before, %s after", a[i], b[i])})
 		}
 	}
-	return notes
+	return bad
 }
 
 func key(c Call) []byte {
@@ -595,7 +647,7 @@ func ExecCall(tx *nutsdb.Tx, c Call) (r Res) {
 		return Res{Val: fmtBytesList(l, true)}
 
 	case "ZAdd":
-		return okOrErr(tx.ZAdd(c.B, key(c), c.X, []byte(c.V)))
+		return okOrErr(tx.ZAdd(c.B, key(c), c.FX(), []byte(c.V)))
 	case "ZRem":
 		return okOrErr(tx.ZRem(c.B, c.K))
 	case "ZRemRangeByRank":
@@ -668,13 +720,13 @@ func ExecCall(tx *nutsdb.Tx, c Call) (r Res) {
 		}
 		return Res{Val: strconv.Itoa(n)}
 	case "ZRangeByScore":
-		ns, err := tx.ZRangeByScore(c.B, c.X, c.Y, zopt(c))
+		ns, err := tx.ZRangeByScore(c.B, c.FX(), c.FY(), zopt(c))
 		if err != nil {
 			return resErr(err)
 		}
 		return Res{Val: fmtNodes(ns)}
 	case "ZCount":
-		n, err := tx.ZCount(c.B, c.X, c.Y, zopt(c))
+		n, err := tx.ZCount(c.B, c.FX(), c.FY(), zopt(c))
 		if err != nil {
 			return resErr(err)
 		}
